@@ -62,6 +62,19 @@ theorem rename_absent_sem (O : Oracle) (hO : O.Certified) (tie : PTerm → Bool)
   obtain ⟨_, _, _, hg⟩ := Alg.mk_sem PTerm.holds PTerm.vars _ (polyPrims_spec O hO tie false tac rfl) hm
   exact hg v hv
 
+/-- renaming a variable to itself changes nothing either (the contract level never reaches the term-level transfer,
+    which for `s = d` would *delete* the variable: `renameTerm t s s = t.remove s`) -/
+theorem rename_self_sem (O : Oracle) (hO : O.Certified) (tie : PTerm → Bool) (tac : Nat → PTerm → TL → List Var → Bool → Elim.TacticRes)
+    (c c' : Contract PTerm) (s : Var) (h : rename (polyPrims O tie false tac) c s s = .ok c') :
+    c'.ins = c.ins ∧ c'.outs = c.outs ∧ c'.a = c.a ∧ ∀ v, TL.holds c.a v → (TL.holds c'.g v ↔ TL.holds c.g v) := by
+  unfold rename Alg.rename at h
+  have hm : Alg.mkContract PTerm.vars (polyPrims O tie false tac) c.a c.g c.ins c.outs = .ok c' := by simpa using h
+  obtain ⟨ha, hi, ho, hg⟩ := Alg.mk_sem PTerm.holds PTerm.vars _ (polyPrims_spec O hO tie false tac rfl) hm
+  exact ⟨hi, ho, ha, hg⟩
+
+/-- the term-level transfer at `s = d` really does drop the variable: the guard of the contract level is necessary -/
+example : renameTerm (PTerm.mk' [(1, 1), (2, 2)] 3) 1 1 = PTerm.mk' [(2, 2)] 3 := by decide +kernel
+
 /-- interface bookkeeping and refusals (instances of the generic C06 theorems for the polyhedral primitives) -/
 theorem rename_iface_in (O : Oracle) (hO : O.Certified) (tie : PTerm → Bool) (tac : Nat → PTerm → TL → List Var → Bool → Elim.TacticRes)
     (c c' : Contract PTerm) (s d : Var) (hne : s ≠ d) (hwf : Pacti.C06.WF PTerm.vars c) (hs : s ∈ c.ins)
